@@ -380,6 +380,21 @@ theorem solve_returns_iff (hinv : InverseCircuitComplete) (np : Nat) (adj : Nat 
     obtain ⟨s, hs, _⟩ := solver_complete hinv np adj hnp hsym hirr hiso
     exact ⟨s, hs⟩
 
+/-- **whatever the solver model returns is correct** (every simple graph, every size, every outcome script — no hypothesis on the graph
+    beyond simplicity): if `solve` returns at all, the graph has no isolated vertex (`solve_returns_iff`), so `hfinal` holds and the
+    recorded circuit prepares |G⟩ ⊗ |0…0⟩ exactly.  This is `solve_sound` with its hypothesis `hfinal` removed; it is the form in which
+    the alternate-target solver (C10 `solve_result_correct`, hypothesis `hsolver`) consumes the time-reversed solver. -/
+theorem solve_returns_correct (hinv : InverseCircuitComplete) (np : Nat) (adj : Nat → Nat → Bool) (hsym : ∀ i j, adj i j = adj j i)
+    (hirr : ∀ i, adj i i = false) (s : Solver.St) (h : Solver.solve (graphSTab np adj) = .ok s) :
+    ∀ script : List Bool, ∃ rs, stabRun s.ne np .prob script s.cops = some rs ∧ rs.t.Valid ∧
+      (STab.ofTab rs.t).n = np + s.ne ∧ ∀ p, (STab.ofTab rs.t).Spn p ↔ (targetSTab np s.ne adj).Spn p := by
+  obtain ⟨hnp, hiso⟩ := (solve_returns_iff hinv np adj hsym hirr).1 ⟨s, h⟩
+  obtain ⟨s', hs', _, hflag⟩ := solver_complete hinv np adj hnp hsym hirr hiso
+  rw [h] at hs'
+  injection hs' with e
+  subst e
+  exact solve_sound np adj hsym s h hflag
+
 /-- the smallest instances of D3 evaluate as the theorem says: K1, 2·K1, K2 + K1 -/
 example : (match Solver.solve (graphSTab 1 fun _ _ => false) with | .error .index => true | _ => false) = true := by
   decide +kernel
